@@ -114,6 +114,23 @@ impl<T> vstd::std_specs::convert::FromSpecImpl<Range<T>> for SimpleSpan<T, ()> {
         "note": "trait-impl methods of `&'src [T]` (Input / ExactSizeInput / SliceInput) lifted to free functions generic over <'src, T>: `unsafe` dropped, associated-type projections replaced by the definitions the impls themselves give (each definition re-checked in the impl text on every run); `impl<T> From<Range<T>> for SimpleSpan<T>` and the struct SimpleSpan taken whole (derives dropped with the attributes); the specification of that conversion supplied through vstd's FromSpecImpl; `old(this)@.len() <= usize::MAX` is the type invariant of a Rust slice stated as a precondition; the preconditions of slice / slice_from are the documented safety contract of SliceInput (cursors generated by this input, start <= end)",
     },
 }
+
+def _array_twin(d):
+    """the `&'src [T; N]` impls have the same shape: same functions, other impl headers / generics / Cache"""
+    import copy
+    a = copy.deepcopy(d)
+    def conv(rx):
+        out = rx.replace("<'src, T> ", "<'src, T: 'src, const N: usize> ").replace("\\[T\\]", "\\[T; N\\]")
+        assert out != rx
+        return out
+    a["generics"] = "<'src, T: 'src, const N: usize>"
+    a["assoc"] = {k: (("&'src [T; N]" if k == "Self::Cache" else v[0]), v[1], conv(v[2]), v[3]) for k, v in d["assoc"].items()}
+    a["fns"] = [(f[0], conv(f[1]), f[2], f[3]) for f in d["fns"]]
+    a["note"] = d["note"].replace("`&'src [T]`", "`&'src [T; N]`").replace("<'src, T>", "<'src, T: 'src, const N: usize>")
+    return a
+
+
+FREE_UNITS["array_input"] = _array_twin(FREE_UNITS["slice_input"])
 for _u, _d in FREE_UNITS.items():
     TARGETS[_u] = (_d["fns"][0][0], None, None, {**{f[2]: f[3] for f in _d["impls"]}, **{f[2]: f[3] for f in _d["fns"]}}, _d["props"])
     SPEC_PRELUDE[_u] = _d["prelude"]
